@@ -48,7 +48,7 @@ Inductive keyid := KMasterPub | KMasterPriv | KCryptoPub | KCryptoPriv | KCrypto
 
 Inductive addrid :=
 | AChain (s : scope) (acct : N) (internal : bool) (idx : N)   (* derived address *)
-| AImp (n : N)                                                (* n-th imported key *)
+| AImp (n : N)     (* imported key AS SERIALISED: 2*key, +1 if uncompressed (two distinct addresses) *)
 | AScr (n hlen : N).                                          (* n-th imported script; length of its hash / output key *)
 
 Inductive atom :=
